@@ -508,6 +508,9 @@ def inject(rng, lines, kind):
         if not cand:
             return None
         s = cand[0]
+        if rng.random() < 0.4:          # clobbered on both arms of a branch: every first store must be reported
+            L[j:j] = ["beqz a0, ocs_x", "li %s, 3" % s, "j ocs_y", "ocs_x:", "li %s, 4" % s, "ocs_y:", "add a0, a0, %s" % s]
+            return L, "overwrite-callee-saved-register", "li %s, 3" % s, ["li %s, 4" % s]
         L[j:j] = ["li %s, 3" % s, "add a0, a0, %s" % s]
         return L, "overwrite-callee-saved-register", "li %s, 3" % s
     if kind == "invalid-stack-offset-usage" and fn_starts:
